@@ -159,6 +159,7 @@ Mutate(s, pf, m) ==
        [] m = 34 -> [ vi EXCEPT !.cv = << >> ]
        [] m = 35 -> [ vi EXCEPT !.rho = Scalar32(Zero) ]                        \* honest proof, verifier's rho = 0
        [] m = 36 -> [ vi EXCEPT !.rho = ToBytesBE(N, 32) ]                      \* rho = n encodes 0
+       [] m \in 40..45 -> SetP(1, << b0 + 2^(m - 38) >>)                          \* one of the bits 2..7 of the first sign byte set
        [] m = 37 -> SetN(Add(nn, N))                                            \* non-canonical n (needs n < 2^256 - N)
        [] m = 38 -> SetL(Add(ll, N))
 MutsAny == { 1, 2, 3, 5, 6, 7, 8, 9, 20, 21, 22, 23, 24, 25, 26, 30, 33, 34, 35, 36 }
@@ -226,6 +227,10 @@ Cases ==
   \cup { << "mut", gh[1], gh[2], T4, 1, 0, m >> : m \in MutsRound, gh \in { << 2, 2 >>, << 4, 1 >>, << 1, 4 >>, << 2, 4 >> } }
   \cup { << "mut", gh[1], gh[2], t, 1, 0, m >> : m \in { 12, 13, 14, 16 }, gh \in { << 2, 2 >>, << 1, 2 >>, << 4, 2 >> },
                                                   t \in { << 6, 6, 4 >>, << 1, 1, 4 >> } }
+       \* rounds whose X AND R are both the point at infinity (l all-zero, one n entry): the sign byte must still be 0..3
+  \cup { << "mut", 1, h, << 4, 1, 4 >>, 1, 0, m >> : h \in { 2, 4 }, m \in { 10, 11, 28 } \cup 40..45 }
+  \cup { << "mut", 2, 2, T4, 1, 0, m >> : m \in 40..45 }
+  \cup { << "np2", gh[1], gh[2], T4, 1, 0, 0 >> : gh \in { << 1, 3 >>, << 3, 1 >>, << 4, 3 >>, << 3, 4 >>, << 8, 7 >>, << 2, 3 >>, << 5, 2 >>, << 3, 3 >>, << 2, 2 >> } }
   \cup { << "mut", 4, h, T4, 1, 0, 31 >> : h \in { 1, 2 } } \cup { << "mut", 8, 2, T4, 1, 0, 31 >> }
   \cup { << "mut", g, h, T4, 1, 0, 32 >> : g \in { 1, 4 }, h \in { 2, 4 } }
        \* generator-list encodings
@@ -285,7 +290,14 @@ ExpandTiny(d) ==
 Expand(d) ==
   LET k == d[1] IN
   IF k \in { "tw", "tp" } THEN ExpandTiny(d) ELSE
-  IF k = "gparse" THEN [ e |-> "BpppGensParse", in |-> [ data |-> GParse(d[2], d[7]) ] ]
+  IF k = "np2" THEN   \* sizes of which EXACTLY ONE is not a power of two, with the one statement whose equation balances for any sizes:
+                      \* commitment = infinity, all-zero proof (every X, R at infinity, n = l = 0).  Must be refused for its sizes alone.
+       LET g == d[2]  h == d[3]
+           fl(x) == CHOOSE j \in 0..8 : 2^j <= x /\ x < 2^(j + 1)
+           r == IF fl(g) > fl(h) THEN fl(g) ELSE fl(h)
+       IN  RVerify([ gens |-> SubSeq(RealGenBytes, 1, 33 * (g + h)), glen |-> g, cv |-> BpVecBytes([j \in 1..h |-> FromNat(j)]),
+                     rho |-> Scalar32(FromNat(7)), commit |-> Zeros(33), proof |-> Zeros(65 * r + 64), pre |-> << >>, scratch |-> BigScr ])
+  ELSE IF k = "gparse" THEN [ e |-> "BpppGensParse", in |-> [ data |-> GParse(d[2], d[7]) ] ]
   ELSE IF k = "flip" THEN RVerify(VIn(FlipStmt, FlipBit(FlipProof, d[7]), BigScr))
   ELSE IF k = "scr" THEN RVerify(VIn(FlipStmt, FlipProof, d[7]))
   ELSE LET s == Stmt(d[2], d[3], d[4], d[5], d[6]) IN
